@@ -9,5 +9,5 @@ cd $W
 echo "== without change ($pkg $name)"; for i in $(seq $N); do GOFLAGS=-mod=mod GOPROXY=off timeout 300 go test -vet=off -count=1 -run "^$name\$" $pkg 2>&1 | tail -1; done
 patch -p1 -s < $D/patch.diff || { echo "PATCH FAILED"; exit 1; }
 echo "== with change"; for i in $(seq $N); do GOFLAGS=-mod=mod GOPROXY=off timeout 300 go test -vet=off -count=1 -run "^$name\$" $pkg 2>&1 | tail -1; done
-echo "== suite with change (without the demo)"; rm $W/$dp; GOFLAGS=-mod=mod GOPROXY=off go test -vet=off -count=1 ./... 2>&1 | grep -E '^(FAIL|---)' | head -5; echo suite-done
+echo "== suite with change (without the demo)"; rm $W/$dp; unshare -n sh -c 'ip link set lo up && GOFLAGS=-mod=mod GOPROXY=off go test -vet=off -count=1 ./... 2>&1' | grep -E '^\s*(FAIL|--- FAIL)' | head -8; echo suite-done
 cd /; rm -rf $W
